@@ -131,7 +131,15 @@ impl ReadHalf for SRead {
         std::future::poll_fn(move |cx| {
             let mut s = sh.lock().unwrap();
             s.recv_calls += 1;
-            s.recv_buf_sizes.push(buf.len());
+            if s.recv_buf_sizes.len() < 100_000 {
+                s.recv_buf_sizes.push(buf.len());
+            }
+            if s.eof_reads > 10_000 {
+                // a reader that loops on end-of-file inside one poll never gives control back: the
+                // only place to stop it is here (the panic surfaces as the case's failure)
+                drop(s);
+                panic!("the reader asked for more 10000 times after the transport had reported the end of the stream");
+            }
             match s.inbound.pop_front() {
                 None => {
                     if s.eof_when_empty {
